@@ -9,6 +9,7 @@ from vf.core import Verdict, lib, mk_basis, nfunc
 from vf.ref import r3
 from vf.run import SubCheck
 
+from gbasis.integrals.overlap_asymm import overlap_integral_asymmetric
 from gbasis.integrals.overlap import Overlap, is_integral_screened, overlap_integral
 
 RULE = ("Hypothesis draws bases of 2-5 generalized mixed-type shells (l 0..3, K 1-4, exponents 0.05-500), two or three "
@@ -71,6 +72,23 @@ def judge(case):
     none = lib(overlap_integral, bas, tol_screen=None)
     if not np.array_equal(full, none):
         return v.fail("tol_screen=None differs from no screening argument")
+    # "no tolerance means no screening" at every public entry point, not only in the wrapper: the class-level methods and the
+    # asymmetric overlap called without a tolerance must return what the wrapper returns without one
+    types = [s["type"] for s in shells]
+    via_class = lib(lambda: Overlap(bas).construct_array_mix(types))
+    if not np.array_equal(via_class, full):
+        d = float(np.abs(via_class - full).max())
+        return v.fail(f"Overlap(basis).construct_array_mix(types) without a tolerance differs from overlap_integral(basis) by {d:.3e} "
+                      f"({int(np.sum((via_class == 0) & (full != 0)))} elements zeroed)")
+    if n >= 2:
+        asym = lib(overlap_integral_asymmetric, bas[:1], bas[1:])
+        if not np.array_equal(asym, full[:off[1], off[1]:]):
+            return v.fail("overlap_integral_asymmetric (which takes no tolerance) differs from the block of the unscreened overlap: "
+                          f"{float(np.abs(asym - full[:off[1], off[1]:]).max()):.3e}")
+        b_plain = lib(Overlap.construct_array_contraction, bas[0], bas[n - 1])
+        b_none = lib(Overlap.construct_array_contraction, bas[0], bas[n - 1], tol_screen=None)
+        if not np.array_equal(b_plain, b_none):
+            return v.fail("Overlap.construct_array_contraction without a tolerance differs from tol_screen=None")
     try:
         overlap_integral(bas, tol_screen=True)
         return v.fail("a bool tol_screen was accepted")
